@@ -304,6 +304,15 @@ def segments(an: Analysis, fn: FunctionInfo, e: ast.AST, argname: str, depth=0) 
         m = ci.methods.get(e.attr)
         if m is not None and m.is_property:
             return _inline_fn(an, m, depth)
+    if isinstance(e, ast.Name) and e.id == argname:
+        # the Args value itself (its length is taken): the order in which Args.__len__ counts the kinds
+        m = an.prog.cls("code_data::Args").methods.get("__len__")
+        if m is not None:
+            return _inline_fn(an, m, depth)
+    if isinstance(e, ast.Call) and isinstance(e.func, ast.Name) and e.func.id in ("len", "int", "bool") and len(e.args) == 1:
+        return segments(an, fn, e.args[0], argname, depth + 1)
+    if isinstance(e, ast.Compare) and len(e.ops) == 1 and isinstance(e.ops[0], ast.IsNot) and isinstance(e.comparators[0], ast.Constant) and e.comparators[0].value is None and field_of(e.left):
+        return [(field_of(e.left), None, True)]  # counts one when the optional parameter is there
     if isinstance(e, ast.Name):
         e2 = inline_locals(fn.node, e)
         if not isinstance(e2, ast.Name):
@@ -1092,23 +1101,32 @@ def _schema_enum(an):
 
 
 def r047(an, rep):
-    it, _ = an.interp("args_len")
+    """len(args) is the number of parameters the code object has - co_argcount + co_kwonlyargcount + one for *args + one for **kwargs - also when two of
+    them carry the same name (a hand-altered co_varnames: CPython binds every slot, a mapping keyed by name holds fewer).  Args.__len__ is folded over
+    Args witnesses."""
+    from sa.feval import BlockOutcome
+    from .c03 import package_evaluator
     api = an.prog.function("code_data::Args.__len__")
-    par = an.prog.function("code_data::Args.parameters")
-    edges = {q for (c, q) in it.call_edges if c == api.qual}
-    rets = [n for n in ast.walk(api.node) if isinstance(n, ast.Return)]
-    is_len = len(rets) == 1 and isinstance(rets[0].value, ast.Call) and isinstance(rets[0].value.func, ast.Name) and rets[0].value.func.id == "len"
-    ok = par.qual in edges and is_len
-    if not ok and is_len is False and len(rets) == 1:
-        # alternative: sum of the five field lengths
+    W = [
+        ("every kind, distinct names", dict(positional_only=("a", "b"), positional_or_keyword=("c",), var_positional="x", keyword_only=("d", "e", "f"), var_keyword=None), 7),
+        ("no parameters", dict(), 0),
+        ("only * and **", dict(var_positional="args", var_keyword="kw"), 2),
+        ("an empty name for **kwargs", dict(positional_or_keyword=("a",), var_keyword=""), 2),
+        ("names that repeat (co_varnames ('a', 'b', 'd', 'b', 'a') of def f(a, b, *c, d, **e))", dict(positional_or_keyword=("a", "b"), var_positional="b", keyword_only=("d",), var_keyword="a"), 5),
+    ]
+    bad = []
+    for name, kw, want in W:
+        ev, _R = package_evaluator(an, api.module, (3, 10))
         try:
-            model = {"positional_only": ("a", "b"), "positional_or_keyword": ("c",), "keyword_only": ("d", "e", "f"), "var_positional": "x", "var_keyword": None}
-            got = feval(rets[0].value, {api.params[0]: model, "len": len, "bool": bool, "int": int})
-            ok = got == 7
-        except Exception:
-            ok = False
-    rep.add("R04.7", f"{api.qual}::len(args) counts the parameters", ok, loc(api.module, api.node),
-            "len(self.parameters)" if ok else "Args.__len__ is not the length of the parameter mapping")
+            got = ev.call_method(api.node, ev.lib["Args"](**kw))
+        except BlockOutcome as o:
+            got = f"stops at `{norm_src(o.node)[:40]}`"
+        except Exception as ex:  # noqa: BLE001 - a gap of the evaluator, never a verdict
+            raise AnalysisError(f"{api.qual}: not evaluable on the witness Args '{name}' ({type(ex).__name__}: {ex})")
+        if got != want or isinstance(got, bool):
+            bad.append(f"{name}: len(args) is {got!r}, the code object has {want} parameters")
+    rep.add("R04.7", f"{api.qual}::len(args) counts the parameters", not bad, loc(api.module, api.node),
+            f"{len(W)} Args witnesses (every kind, none, an empty name, repeated names): the number of parameter slots" if not bad else bad[0] + (f" (+{len(bad) - 1} more)" if len(bad) > 1 else ""))
 
 
 def r04f(an, rep, rule="R04.W"):
